@@ -141,14 +141,24 @@ def r5_1(prog, rep):
         "group names: product of the factor components' contrast labels, in component order, leftmost-major (cells of g1:g2 in lexicographic order)",
         f"product(*{lst}), {lst} filled from {src}", f"group names are built {order} over {src}: they no longer match the factor's indicator columns")
     apps = [x for x in calls_in(f.node) if unparse(x.func) == f"{lst}.append"]
-    obl(rep, f, apps[0] if apps else f.node, "R5.1", len(apps) == 1 and unparse(apps[0].args[0]) == "component.contrast_matrix.labels",
-        "each component contributes its contrast labels (the labels of its indicator columns)")
+    elem = None
+    if len(apps) == 1:
+        lp_ = [n for n in walk_local(f.node) if isinstance(n, ast.For) and any(x is apps[0] for x in ast.walk(n))]
+        if lp_ and isinstance(lp_[0].target, ast.Name):
+            elem = (lp_[0].target.id, unparse(apps[0].args[0]))
+    else:
+        ds = [st for st in walk_local(f.node) if isinstance(st, ast.Assign) and len(st.targets) == 1 and unparse(st.targets[0]) == lst]
+        if len(ds) == 1 and isinstance(ds[0].value, (ast.ListComp, ast.GeneratorExp)) and len(ds[0].value.generators) == 1 \
+                and isinstance(ds[0].value.generators[0].target, ast.Name):
+            elem = (ds[0].value.generators[0].target.id, unparse(ds[0].value.elt))
+    obl(rep, f, apps[0] if apps else f.node, "R5.1", elem is not None and elem[1] == f"{elem[0]}.contrast_matrix.labels",
+        "each component contributes its contrast labels (the labels of its indicator columns)", str(elem))
     # the factor's own matrix is folded in the same component order (R4.1)
     ts = prog.fn("terms.terms.Term.set_data")
     gim = prog.fn("utils.get_interaction_matrix")
     major, why = O.pairwise_major(gim)
     cs = [x for x in calls_in(ts.node) if dotted(x.func) in ("reduce", "functools.reduce")]
-    src2, order2, _ = O.fold_order(cs[0], major if major in (0, 1) else 0)
+    src2, order2, _ = O.fold_order(cs[0], major if major in (0, 1) else 0, fn=f)
     obl(rep, ts, cs[0], "R5.1", src2 == "self.components" and order2 == "leftmost-major" and major == 0,
         "the factor's indicator matrix of an interaction g1:g2 is folded in the same component order, leftmost-major", why)
     fl = prog.fn("terms.terms.GroupSpecificTerm.labels")
